@@ -2,7 +2,7 @@
 import json
 from gen import common, sysattr, api, framing
 
-LEAN_MODULE = ["XcmModel.Props.C04", "XcmModel.Props.Utls"]
+LEAN_MODULE = ["XcmModel.Props.C04", "XcmModel.Props.Utls", "XcmModel.Props.Timer"]
 THEOREMS = [
     "XcmModel.C04.C04_pending_flush_is_watched", "XcmModel.C04.C04_idle_asks_nothing_extra",
     "XcmModel.C04.C04_condition_passed_down", "XcmModel.C04.C04_flush_progress", "XcmModel.C04.C04_btcp_wake",
@@ -14,6 +14,7 @@ THEOREMS = [
     "XcmModel.UtlsProps.C04_utls_condition_passed_down", "XcmModel.UtlsProps.C04_utls_server_finish", "XcmModel.UtlsProps.C04_utls_accept_reevaluates_server",
     "XcmModel.C04stack.C04_tcp_stack_registers_output", "XcmModel.C04stack.C04_tcp_stack_wakeup", "XcmModel.C04stack.C04_tls_stack_has_source",
     "XcmModel.C04tp.C04_registrations_refreshed", "XcmModel.C04tp.C04_new_sockets_registered",
+    "XcmModel.TimerProps.timer_inv_run", "XcmModel.TimerProps.C04_expired_timer_wakes", "XcmModel.TimerProps.C13_has_expired_implies_readable",
 ]
 
 
@@ -167,6 +168,10 @@ def run(ctx):
     _btls.run_part(ctx, 10 if ctx.tier == "quick" else 300, exhaustive=True)
     ctx.rule += (" unit_btls: the real xcm_tp_btls.c with scripted OpenSSL answers vs the Lean Btls model: every OpenSSL event x first observer x state x verdict, conn_update for every reachable (state, ssl_condition, ssl_wants) x condition x SSL_has_pending, seeded random histories; stickiness/discoverer/rc-range/gating monitors.")
 
+    # the timer manager behind connect timeouts, the Happy Eyeballs delay and dns.timeout
+    from gen import timer as _timer
+    _timer.run_part(ctx, 40 if ctx.tier == "quick" else 1500, label="c04timer")
+    ctx.rule += " unit_timer: the real timer_mgr.c (scripted clock, recorded timerfd_settime, K-timerfd probed on the real kernel) vs the Lean TimerMgr model on every short two-user history and on random histories with stale ids; monitor: the timerfd is always armed at the earliest live deadline, ids are never reused, a cancel removes exactly the timer named."
 
 def replay(path):
     r = json.load(open(path))
